@@ -71,3 +71,7 @@ void h_set_batch_size(void) {
     V_COVER("bs-ok", r == 0 && vin_state == M_MOD_IDLE); V_COVER("bs-eagain", r == -EAGAIN); V_COVER("bs-zombie", r == -EACCES);
     V_CANARY();
 }
+
+/* keeps the symbols of callee contracts that the current code does not call (a replaced callee must exist in the goto model);
+ * they are in the replace lists so that a change which starts calling them is still analysed instead of ending "undecided" */
+void v_keep_symbols(void) { (void)m_stack_peek(NULL); (void)m_stack_len(NULL); }
